@@ -18,7 +18,7 @@ use crate::util::*;
 fn family(prop: &str) -> &'static str {
     match prop {
         "C16" | "C17" | "C11" => "acyclic",
-        "C08" => "intern",
+        "C08" | "C09" => "intern",
         "C18" => "cyclic",
         "C14" => "cycpanic",
         "C19" => "mixed",
@@ -597,6 +597,13 @@ pub fn check_iter(prop: &str, case: &ConcCase, res: &IterResult) -> IterVerdict 
     let writer = case.mode == Mode::WriterReaders;
     v.extend(res.write_violations.iter().cloned());
     v.extend(res.held_violations.iter().cloned());
+    if prop == "C09" {
+        // the retention model over the merged log of all threads (revisions do not change during
+        // the parallel phase of this family)
+        let (rv, rc) = crate::mon_misc::check_retention(&case.prog, &res.log, &res.ctx);
+        v.extend(rv);
+        c.merge(&rc);
+    }
     c.add("held_handles_read_back", res.held_read_back);
     if res.stuck {
         v.push("threads made no progress (watchdog): see protocol trace analysis".into());
@@ -696,7 +703,7 @@ pub fn check_iter(prop: &str, case: &ConcCase, res: &IterResult) -> IterVerdict 
         }
     }
     // value clauses belong to C16 / C18 / C14 / C20 / C21 / C11 / C24; the other checks only count them
-    if matches!(prop, "C17" | "C19" | "C08" | "C23") {
+    if matches!(prop, "C17" | "C19" | "C08" | "C09" | "C23") {
         let keep: Vec<String> = v
             .iter()
             .filter(|m| !m.contains("reference says"))
@@ -832,6 +839,7 @@ pub fn check_iter(prop: &str, case: &ConcCase, res: &IterResult) -> IterVerdict 
     let nontrivial = match prop {
         "C16" | "C17" | "C11" => c.get("ev_block_on") > 0 || c.get("dg_block_on") > 0,
         "C08" => c.get("intern_same_handle_again") > 0,
+        "C09" => c.get("retention_reuses_checked") > 0 || c.get("interned_identity_kept") > 0,
         "C18" => c.get("dg_transfer") > 0 || c.get("dg_block_on") > 0,
         "C14" => c.get("cycle_panics") + c.get("propagated_cycle_panics") > 0,
         "C19" => c.get("dg_block_on") > 0,
@@ -1403,7 +1411,7 @@ pub fn conc_case(o: &Opts, case_seed: u64) -> CaseReport {
     let prop = o.prop.clone();
     crate::sink::TRACE_DG.store(true, std::sync::atomic::Ordering::Relaxed);
     crate::sink::READ_BACK.store(
-        matches!(o.prop.as_str(), "C08" | "C16" | "C24"),
+        matches!(o.prop.as_str(), "C08" | "C09" | "C16" | "C24"),
         std::sync::atomic::Ordering::Relaxed,
     );
     crate::sink::RELAXED_CLOCK.store(o.sub.contains("tsan") || o.sub.contains("miri"), std::sync::atomic::Ordering::Relaxed);
